@@ -5,4 +5,5 @@ META = {
             'schedule within the bound. Whether a task is dropped or yielded twice depends on which futures complete between snapshots of the pending set.',
     'note': 'This family of technique cannot interleave real processes: the executor and as_completed are stubs (listed in the evidence); real pools are only sampled once '
             'natively. The solver enumerates small selector ranges; the loop itself runs natively per path.',
+    'technique': 'solver-chosen schedule variables (completion order, worker count, failing subset) explored exhaustively by CrossHair/z3 within the bound; the real refill loop runs natively per schedule against stub executor/as_completed',
 }
